@@ -1,5 +1,6 @@
 #!/usr/bin/env python3
-"""Markdown table of the seeded changes under seeded/ and which checks caught them."""
+"""Markdown table of the seeded changes under seeded/ and which checks caught them
+(`python3 tools/seed_table.py > seeded/TABLE.md`)."""
 import json, os, re, glob
 HERE = os.path.dirname(os.path.dirname(os.path.abspath(__file__)))
 rows = []
@@ -9,15 +10,33 @@ for d in sorted(glob.glob(os.path.join(HERE, 'seeded', 'C*-*'))):
         meta = json.load(open(os.path.join(d, 'meta.json')))
     except Exception:
         meta = {}
-    res = {}
+    res, first, notes = {}, {}, {}
     rp = os.path.join(d, 'result.txt')
     if os.path.exists(rp):
         for line in open(rp):
             m = re.match(r'check (C\d+) \(([^)]*)\): (\w+)(.*)', line)
             if m:
+                first.setdefault(m.group(1), m.group(3))
                 res[m.group(1)] = m.group(3) + (' (no failing input)' if 'no-failing' in m.group(4) else '')   # last evaluation wins
+                extra = re.search(r'\((after [^)]*)\)', m.group(4))
+                if extra:
+                    notes[m.group(1)] = extra.group(1)
+    files = []
+    pp = os.path.join(d, 'patch.diff')
+    if os.path.exists(pp):
+        files = sorted({m.group(1) for m in re.finditer(r'^\+\+\+ b/(\S+)', open(pp).read(), re.M)})
     summ = (meta.get('summary') or '').replace('|', '/').replace('\n', ' ')
-    need = (meta.get('needs_to_manifest') or '').replace('|', '/').replace('\n', ' ')
-    rows.append('| %s | %s | %s | %s |' % (name, summ[:230], need[:200], '; '.join('%s: %s' % kv for kv in sorted(res.items()))))
-print('| id | change | needs to manifest | checks (quick tier, seed 0) |\n|---|---|---|---|')
+    verdict = []
+    for c, v in sorted(res.items()):
+        t = '%s: %s' % (c, v)
+        if first.get(c) == 'MISSED' and v.startswith('CAUGHT'):
+            t += ' — first MISSED, ' + notes.get(c, 'check strengthened')
+        verdict.append(t)
+    rows.append('| %s | %s | %s | %s |' % (name, ', '.join(os.path.basename(f) for f in files), summ[:260] + ('…' if len(summ) > 260 else ''),
+                                           '; '.join(verdict)))
+print('# Seeded changes and the checks that report them\n')
+print('Each directory `seeded/<id>/` holds `patch.diff` (against /repo HEAD), `demo.py` (exit 1 with the change, 0 without),\n'
+      '`meta.json` (what was changed, what it needs to manifest) and `result.txt` (confirmation + verdicts).\n'
+      'A/B come from the first round of independent sub-agents, C/D from the second. Verdicts: quick tier, seed 0.\n')
+print('| id | file | change | verdict |\n|---|---|---|---|')
 print('\n'.join(rows))
